@@ -683,7 +683,30 @@ Inductive c05_case :=
           (obs : bool) (kept : bool)
 | CDesc (d : rawdesc) (obs_role obs_merged : list cstr)
         (obs_wants : option (N * N * ranges * list chan))
+| CCache (ops : list (N * rawclass)) (obs : list (N * option klass))
 | CRound (offers : list offer) (descs : list rawdesc) (exec_cpu exec_mem : N) (obs : round_obs).
+
+(* CCache: a history of Classes.UpdateClass(key, class) calls on one class cache, then GetClass for
+   every key that was written (and one that never was): [obs] is what GetClass returned. *)
+
+(* ---- the task class cache between the template files and the scheduler ---- *)
+(* Classes.UpdateClass: the entry of that identifier is overwritten, or added *)
+Fixpoint cache_update {V} (k : N) (v : V) (c : list (N * V)) : list (N * V) :=
+  match c with
+  | [] => [(k, v)]
+  | (k', v') :: r => if N.eqb k k' then (k, v) :: r else (k', v') :: cache_update k v r
+  end.
+(* Classes.GetClass *)
+Definition cache_get {V} (k : N) (c : list (N * V)) : option V := assocN k c.
+Definition cache_run {V} (ops : list (N * V)) : list (N * V) :=
+  fold_left (fun c kv => cache_update (fst kv) (snd kv) c) ops [].
+(* specification: "the template" is the class that was written LAST under that identifier *)
+Definition last_written {V} (k : N) (ops : list (N * V)) : option V := assocN k (rev ops).
+
+Definition klass_eqb (a b : klass) : bool :=
+  list_eqb cstr_eqb (k_cts a) (k_cts b) && N.eqb (k_cpu a) (k_cpu b) && N.eqb (k_mem a) (k_mem b) &&
+  ranges_eqb (k_static a) (k_static b) && list_eqb chan_eqb (k_bind a) (k_bind b) &&
+  Bool.eqb (k_controllable a) (k_controllable b).
 
 (* [kept]: the arguments handed to the function (and, for MergeParent, the spare capacity behind
    the parent slice) were found unchanged after the call.  The model functions are values-in,
@@ -770,6 +793,9 @@ Definition corr05 (c : c05_case) : bool :=
     list_eqb cstr_eqb (desc_constraints (rd_levels d) (option_map rk_cts (rd_class d))) omerged &&
     option_eqb (pair_eqb (pair_eqb (pair_eqb N.eqb N.eqb) ranges_eqb) (list_eqb chan_eqb))
                (wants_of d) owants
+  | CCache ops obs =>
+    forallb (fun ko => option_eqb klass_eqb (option_map class_of (cache_get (fst ko) (cache_run ops)))
+                                  (snd ko)) obs
   | CRound offers rds ec em obs =>
     let ds := descs_of rds in
     existsb (fun sched => robs_eqb (obs_of offers (run_round (ec, em) offers sched ds)) obs)
@@ -1029,6 +1055,11 @@ Definition mon05 (c : c05_case) : N :=
     let c1 := first_unmet (has_c omerged) (rd_levels d) (applicable lv) in
     let c10 := if forallb (fun c => existsb (fun l => has_c l c) lv) omerged then 0 else 10 in
     first_code [match c1 with 1 => 10 | x => x end; c10]
+  | CCache ops obs =>
+    (* 17: GetClass does not give the class written last under that identifier (a stale, lost or
+       mixed-up template would be used for placement) *)
+    if forallb (fun ko => option_eqb klass_eqb (option_map class_of (last_written (fst ko) ops)) (snd ko)) obs
+    then 0 else 17
   | CRound offers rds _ _ obs => mon_round offers rds obs
   end.
 
@@ -1080,6 +1111,10 @@ Definition tag05 (c : c05_case) : N :=
         + 8 * b2n (match rd_class d with Some _ => true | None => false end)
         + 16 * b2n (existsb has_dup_attr (rd_levels d))
         + 32 * b2n (match rd_class d with Some rk => has_dup_attr (rk_cts rk) | None => false end)
+  | CCache ops obs =>
+    900 + N.min (Nlen ops) 7
+        + 8 * b2n (negb (nodupb N.eqb (map fst ops)))      (* some identifier written more than once *)
+        + 16 * b2n (existsb (fun ko => match snd ko with None => true | _ => false end) obs)
   | CRound offers rds _ _ obs => tag_round offers rds obs
   end.
 
